@@ -28,10 +28,12 @@ ALPHA = [E.DRAIN, E.TURN, E.TIMER, E.FINISH, E.DISCONNECT, E.FORCE, E.CANCEL, E.
 # quick tier: the events without which no listed fault class / operation can be exercised
 ALPHA_Q = [E.DRAIN, E.TIMER, E.DISCONNECT, E.FORCE, E.CANCEL, E.CONNECT_OK, E.CONNECT_ERR, E.D_HELLO, E.D_CONNECT, E.D_GARBAGE,
            E.D_NOISEMARK, E.D_BADPAYLOAD, E.EOF, E.RESET, E.WRITEFAIL, E.REQUEST, E.D_DEVINFO, E.CANCEL_REQ, E.RESOLVE_ERR]
+ALPHA_FULL = ALPHA
 if shard_int("QA", 0):
     ALPHA = ALPHA_Q
 NA = len(ALPHA)
 SH0 = shard_int("SH0", 0)
+SH1 = shard_int("SH1", -1)  # thorough tier: the second event is fixed per shard as well
 STAGE = shard_int("STAGE", 0)
 NOISE = shard_int("NOISE", 0)
 NADDR = shard_int("NADDR", 1)  # address groups tried one after the other by the TCP connect
@@ -156,6 +158,7 @@ def h09_4(a0: int, a1: int, a2: int, a3: int) -> bool:
     """
     pre: a0 == SH0
     pre: 0 <= a1 < NA and 0 <= a2 < NA and 0 <= a3 < NA
+    pre: SH1 < 0 or a1 == SH1
     post: _
     """
     return _run([a0, a1, a2, a3])
@@ -163,7 +166,7 @@ def h09_4(a0: int, a1: int, a2: int, a3: int) -> bool:
 
 def _enabled_first(stage: int, noise: int, naddr: int = 1, alpha=None) -> list:
     out = []
-    for i, ev in enumerate(alpha or ALPHA):
+    for i, ev in enumerate(alpha or ALPHA_FULL):
         kw = {"noise_psk": PSK} if noise else {}
         if naddr > 1:
             kw["addresses"] = ["10.0.0.%d" % (k + 1) for k in range(naddr)]
@@ -176,24 +179,36 @@ def _enabled_first(stage: int, noise: int, naddr: int = 1, alpha=None) -> list:
     return out
 
 
+def _mk(stage: int, noise: int, naddr: int):
+    def mk():
+        kw = {"noise_psk": PSK} if noise else {}
+        if naddr > 1:
+            kw["addresses"] = ["10.0.0.%d" % (k + 1) for k in range(naddr)]
+        return Scenario(stage, world_kw=kw)
+    return mk
+
+
 def shards(tier: str) -> list:
     out = []
-    fn = "h09_3" if tier == "quick" else "h09_4"
     quick = tier == "quick"
     combos = [(st, 0, 1) for st in (E.ST_RESOLVING, E.ST_CONNECTING, E.ST_OPENED, E.ST_HELLO_SENT, E.ST_CONNECTED, E.ST_DISCONNECTING)]
     combos += [(E.ST_HELLO_SENT, 1, 1)]  # noise: finish parked on the handshake
     combos += [(E.ST_CONNECTING, 0, 2)]  # two address groups: the TCP connect may take 2 x 60 s
-    alpha = ALPHA_Q if quick else None
+    alpha = ALPHA_Q if quick else ALPHA_FULL
     for st, nz, na in combos:
         for i in _enabled_first(st, nz, na, alpha):
-            names = alpha or ALPHA
-            out.append({"fn": fn, "env": {"STAGE": st, "SH0": i, "NOISE": nz, "NADDR": na, "QA": 1 if quick else 0}, "cond_timeout": 600 if quick else 2400, "path_timeout": 60,
-                        "desc": f"stage {E.STAGE_NAMES[st]}{' (noise)' if nz else ''}{' (2 address groups)' if na > 1 else ''}, first event {E.NAMES[names[i]]}, then {2 if quick else 3} symbolic events; then time runs until every call ended"})
+            out.append({"fn": "h09_3", "env": {"STAGE": st, "SH0": i, "NOISE": nz, "NADDR": na, "QA": 1 if quick else 0}, "cond_timeout": 600 if quick else 1500, "path_timeout": 60,
+                        "desc": f"stage {E.STAGE_NAMES[st]}{' (noise)' if nz else ''}{' (2 address groups)' if na > 1 else ''}, first event {E.NAMES[alpha[i]]}, then 2 symbolic events ({len(alpha)}-event alphabet); then time runs until every call ended"})
+    if not quick:
+        for st, nz, na in [(E.ST_CONNECTING, 0, 1), (E.ST_HELLO_SENT, 0, 1), (E.ST_CONNECTED, 0, 1), (E.ST_HELLO_SENT, 1, 1)]:
+            for i, j in E.enabled_pairs(_mk(st, nz, na), ALPHA_Q):
+                out.append({"fn": "h09_4", "env": {"STAGE": st, "SH0": i, "SH1": j, "NOISE": nz, "NADDR": na, "QA": 1}, "cond_timeout": 1500, "path_timeout": 60,
+                            "desc": f"stage {E.STAGE_NAMES[st]}{' (noise)' if nz else ''}, events {E.NAMES[ALPHA_Q[i]]}, {E.NAMES[ALPHA_Q[j]]}, then 2 symbolic events (19-event alphabet); then time runs until every call ended"})
     return out
 
 
 BOUNDS = {"quick": "6 stages (+ noise handshake stage, + two address groups) x 3 events from a 19-event alphabet (thorough: 27 events) (resolver ok/error/hang, connect ok/error/hang, device frames incl. garbage / noise marker / undecodable payload / wrong-order responses, EOF, reset, write failure, silence, caller cancellation, up to 2 concurrent requests), then virtual time runs until all calls have ended",
-          "thorough": "same with 4 events"}
+          "thorough": "3 events from the 27-event alphabet after every stage plus every sequence of 4 events from the 19-event alphabet after connecting, hello sent (plaintext and noise), connected"}
 OUTSIDE = ["more than two address groups in the TCP connect", "sequences longer than the bound", "real socket timing"]
 ASSUMPTIONS = ["SimLoop virtual clock: callbacks take zero time", "time bounds from the constants cited by the statement: resolve 30 + connect 60; handshake 30 + hello/login 30; request timeout 10; disconnect 5 + 10",
                "first-cause reference: garbage / undecodable payload => ProtocolAPIError, noise marker on plaintext => RequiresEncryptionAPIError, EOF => SocketClosedAPIError; other causes only require a connection-error subclass"]
